@@ -1,16 +1,19 @@
 (* C15 - a loaded world contains exactly what its description says.
 
-   Model of desper/model/world.py (WorldHandle.load, WorldFromFileHandle,
-   default_processors_transformer, WorldFromFileTransformer with
+   Model of desper/model/world.py (WorldHandle.load with any deque of
+   transform functions, WorldFromFileHandle, default_processors_transformer,
+   WorldFromFileTransformer constructed with any list of dict transformers,
    _apply_transformers and its deepcopy, type_/object_/resource_dict_
    transformer, the three regexes, object_from_string,
-   populate_world_from_dict) and of the part of desper/logic/world.py that a
-   load goes through (add_processor, create_entity with the id generator,
-   postponed on_add, the released queue).
+   populate_world_from_dict - through a file, through a user transform
+   function, or called directly on a world) and of the part of
+   desper/logic/world.py that a load goes through (add_processor,
+   create_entity with the id generator, on_add called directly or postponed,
+   the released queue).
 
-   The model is the three-pass pipeline, statement by statement; the
-   property ([holds_b]) is a one-pass declarative reading of the
-   description.  Definitions only: no proofs in this file. *)
+   The model is the pipeline, statement by statement; the property
+   ([holds_b]) is a declarative reading of the description(s).
+   Definitions only: no proofs in this file. *)
 From Coq Require Import ZArith List Bool.
 From Desper Require Import Lib.Alist.
 From Desper Require Export Loader.Value.
@@ -87,6 +90,49 @@ Record ddict := DD { d_type : str; d_args : option (list val); d_kwargs : option
 Record edict := ED { e_id : option val; e_comps : option (list ddict) }.
 Record desc := DS { w_procs : option (list ddict); w_ents : option (list edict) }.
 
+(* the dict transformers a WorldFromFileTransformer is constructed with *)
+Inductive pass := PType | PObj | PRes.
+
+(* WorldFromFileHandle.__init__: type_, object_, resource_dict_transformer *)
+Definition default_passes : list pass := [PType; PObj; PRes].
+
+(* what is run on the world, in order.  In a WorldHandle these are its
+   transform_functions (each is called with (handle, world)):
+   SDefault   default_processors_transformer
+   SFile ps d a WorldFromFileTransformer constructed with the dict transformers
+              ps, reading a file whose content is d
+   SDict d    a user function that calls populate_world_from_dict(world, dict),
+              the dict naming real classes; also the direct call of
+              populate_world_from_dict on a world
+   SMark k    a user function that only records that it was called *)
+Inductive step :=
+| SDefault
+| SFile (ps : list pass) (ds : desc)
+| SDict (ds : desc)
+| SMark (k : Z).
+
+(* the ways of loading *)
+Inductive load_kind :=
+| LFile (ds : desc)                          (* WorldFromFileHandle(file)() *)
+| LHandle (steps : list step)                (* WorldHandle with these transform functions, called *)
+| LDirect (enabled : bool) (steps : list step).
+                                             (* populate_world_from_dict called on a World whose
+                                                dispatch_enabled is [enabled], once per step *)
+
+(* WorldFromFileHandle.__init__ *)
+Definition steps_of (k : load_kind) : list step :=
+  match k with
+  | LFile ds => [SDefault; SFile default_passes ds]
+  | LHandle st => st
+  | LDirect _ st => st
+  end.
+
+Definition via_handle (k : load_kind) : bool :=
+  match k with LDirect _ _ => false | _ => true end.
+
+Definition init_enabled (k : load_kind) : bool :=
+  match k with LDirect e _ => e | _ => false end.
+
 (* ---- observations ------------------------------------------------------------
    k_type  : serial of the class that was instantiated
    o_constr: the constructor calls the doubles recorded, in call order; the
@@ -102,7 +148,11 @@ Record desc := DS { w_procs : option (list ddict); w_ents : option (list edict) 
              cb_ok = "world is the loaded world"), kind 1 = on_world_load(handle,
              world) (cb_ok = "handle is the file handle and world is the loaded
              world"); every maximal run of on_world_load entries is sorted by
-             instance (set iteration order) *)
+             instance (set iteration order); in a direct call on an enabled
+             world the on_add callbacks arrive during the call and are in
+             this log as well
+   o_marks : per call of a marking user transform function: its number and
+             "it received this handle and the world that load() returned" *)
 Record constr := K { k_type : Z; k_args : list val; k_kwargs : list (Z * val) }.
 Record cb := CB { cb_inst : Z; cb_kind : Z; cb_ent : val; cb_ok : bool }.
 Record wobs := WO {
@@ -110,11 +160,12 @@ Record wobs := WO {
   o_procs : list Z;
   o_ents : list (val * list Z);
   o_enabled : bool;
-  o_cbs : list cb
+  o_cbs : list cb;
+  o_marks : list (Z * bool)
 }.
 Inductive outcome := OErr | OOk (w : wobs).
 
-Record C15_case := Case { c_env : env; c_desc : desc; c_obs : outcome }.
+Record C15_case := Case { c_env : env; c_load : load_kind; c_obs : outcome }.
 
 (* =========================== the model ======================================= *)
 
@@ -239,29 +290,48 @@ Fixpoint apply_transformers (ts : list (dstate -> option dstate)) (d : dstate) :
                 else None                                (* TypeError: cannot pickle *)
   end.
 
-Definition dict_transformers (E : env) : list (dstate -> option dstate) :=
-  [type_tr E; object_tr E; resource_tr E].
+Definition pass_fn (E : env) (p : pass) : dstate -> option dstate :=
+  match p with
+  | PType => type_tr E
+  | PObj => object_tr E
+  | PRes => resource_tr E
+  end.
 
-Definition transform_dict (E : env) (d : ddict) : option dstate :=
-  apply_transformers (dict_transformers E) (init_dstate d).
+Definition transform_dict (E : env) (ps : list pass) (d : ddict) : option dstate :=
+  apply_transformers (map (pass_fn E) ps) (init_dstate d).
 
 (* WorldFromFileTransformer.__call__ up to populate: every processor dict,
    then every component dict of every entity *)
-Definition transform_ent (E : env) (e : edict) : option (option val * list dstate) :=
-  match mapM (transform_dict E) (optl (e_comps e)) with
+Definition tdesc : Type := list dstate * list (option val * list dstate).
+
+Definition map_ent (f : ddict -> option dstate) (e : edict) : option (option val * list dstate) :=
+  match mapM f (optl (e_comps e)) with
   | Some cs => Some (e_id e, cs)
   | None => None
   end.
 
-Definition transform_desc (E : env) (w : desc)
-  : option (list dstate * list (option val * list dstate)) :=
-  match mapM (transform_dict E) (optl (w_procs w)) with
-  | Some ps => match mapM (transform_ent E) (optl (w_ents w)) with
+Definition map_desc (f : ddict -> option dstate) (w : desc) : option tdesc :=
+  match mapM f (optl (w_procs w)) with
+  | Some ps => match mapM (map_ent f) (optl (w_ents w)) with
                | Some es => Some (ps, es)
                | None => None
                end
   | None => None
   end.
+
+Definition transform_desc (E : env) (ps : list pass) (w : desc) : option tdesc :=
+  map_desc (transform_dict E ps) w.
+
+(* a dictionary handed to populate_world_from_dict directly: 'type' is
+   already the class (the description names it; the harness looks it up),
+   no transformer runs *)
+Definition direct_dict (E : env) (d : ddict) : option dstate :=
+  match object_from_string E (d_type d) with
+  | Some e => Some (DSt (TObj e) (d_args d) (d_kwargs d))
+  | None => None
+  end.
+
+Definition direct_desc (E : env) (w : desc) : option tdesc := map_desc (direct_dict E) w.
 
 (* ---- the World during a load ------------------------------------------------- *)
 Inductive qev := QAdd (inst : Z) (eid : val) | QLoad.
@@ -273,17 +343,19 @@ Record wstate := W {
   ws_next : Z;                             (* next value of itertools.count(1) *)
   ws_enabled : bool;                       (* _dispatch_enabled *)
   ws_queue : list qev;                     (* _event_queue *)
-  ws_listen : list Z                       (* _events['on_world_load'] *)
+  ws_listen : list Z;                      (* _events['on_world_load'] *)
+  ws_called : list cb;                     (* callbacks delivered so far (the doubles' log) *)
+  ws_marks : list (Z * bool)               (* calls of user transform functions (their log) *)
 }.
 
-(* world = World(); world.dispatch_enabled = False *)
-Definition w_init : wstate := W [] [] [] 1 false [] [].
+(* world = World(); world.dispatch_enabled = en *)
+Definition w_start (en : bool) : wstate := W [] [] [] 1 en [] [] [] [].
 
 (* World.add_processor for priority 0 everywhere: a processor of the same
    exact class is filtered out, insort_right appends *)
 Definition add_processor (w : wstate) (t inst : Z) : wstate :=
   W (ws_log w) (filter (fun p => negb (fst p =? t)) (ws_sorted w) ++ [(t, inst)])
-    (ws_ents w) (ws_next w) (ws_enabled w) (ws_queue w) (ws_listen w).
+    (ws_ents w) (ws_next w) (ws_enabled w) (ws_queue w) (ws_listen w) (ws_called w) (ws_marks w).
 
 (* default_processors_transformer *)
 Definition default_processors (w : wstate) : wstate :=
@@ -296,7 +368,7 @@ Definition construct (w : wstate) (d : dstate) : option (wstate * (Z * nsent)) :
       if callable (n_kind e)
       then Some (W (ws_log w ++ [K (tserial e) (optl (s_args d)) (optl (s_kwargs d))])
                    (ws_sorted w) (ws_ents w) (ws_next w) (ws_enabled w) (ws_queue w)
-                   (ws_listen w),
+                   (ws_listen w) (ws_called w) (ws_marks w),
                  (Z.of_nat (length (ws_log w)), e))
       else None
   | TStr _ => None                                       (* 'str' object is not callable *)
@@ -343,7 +415,8 @@ Fixpoint tbl_set (eid : val) (t inst : Z) (tbl : list (val * list (Z * Z)))
                      else (k, row) :: tbl_set eid t inst r
   end.
 
-(* World.create_entity(comps..., entity_id=id) while dispatching is disabled *)
+(* World.create_entity(comps..., entity_id=id): on_add is called directly
+   when dispatching is enabled, relayed through the queue otherwise *)
 Definition create_entity (w : wstate) (comps : list (Z * nsent)) (id : option val)
   : option wstate :=
   match id with
@@ -358,10 +431,16 @@ Definition create_entity (w : wstate) (comps : list (Z * nsent)) (id : option va
     Some (W (ws_log w) (ws_sorted w)
             (fold_left (fun t c => tbl_set eid (tserial (snd c)) (fst c) t) comps (ws_ents w))
             nxt (ws_enabled w)
-            (ws_queue w ++ flat_map (fun c => if has_add (n_kind (snd c))
-                                              then [QAdd (fst c) eid] else []) comps)
+            (if ws_enabled w then ws_queue w
+             else ws_queue w ++ flat_map (fun c => if has_add (n_kind (snd c))
+                                                   then [QAdd (fst c) eid] else []) comps)
             (ws_listen w ++ flat_map (fun c => if has_load (n_kind (snd c))
-                                               then [fst c] else []) comps))
+                                               then [fst c] else []) comps)
+            (if ws_enabled w
+             then ws_called w ++ flat_map (fun c => if has_add (n_kind (snd c))
+                                                    then [CB (fst c) 0 eid true] else []) comps
+             else ws_called w)
+            (ws_marks w))
   end.
 
 Definition pop_ent (w : wstate) (e : option val * list dstate) : option wstate :=
@@ -375,20 +454,35 @@ Definition pop_ent (w : wstate) (e : option val * list dstate) : option wstate :
 Definition dispatch_load (w : wstate) : wstate :=
   if null (ws_listen w) then w
   else W (ws_log w) (ws_sorted w) (ws_ents w) (ws_next w) (ws_enabled w)
-         (ws_queue w ++ [QLoad]) (ws_listen w).
+         (ws_queue w ++ [QLoad]) (ws_listen w) (ws_called w) (ws_marks w).
 
-(* WorldHandle.load with the transform functions of WorldFromFileHandle *)
-Definition load (E : env) (ds : desc) : option wstate :=
-  let w0 := default_processors w_init in
-  match transform_desc E ds with
-  | Some (ps, es) =>
-      match foldM pop_proc w0 ps with
-      | Some w1 => match foldM pop_ent w1 es with
-                   | Some w2 => Some (dispatch_load w2)
+(* populate_world_from_dict: processors first, then entities *)
+Definition populate (w : wstate) (td : tdesc) : option wstate :=
+  match foldM pop_proc w (fst td) with
+  | Some w1 => foldM pop_ent w1 (snd td)
+  | None => None
+  end.
+
+Definition run_step (E : env) (w : wstate) (s : step) : option wstate :=
+  match s with
+  | SDefault => Some (default_processors w)
+  | SFile ps ds => match transform_desc E ps ds with
+                   | Some td => populate w td
                    | None => None
                    end
-      | None => None
-      end
+  | SDict ds => match direct_desc E ds with
+                | Some td => populate w td
+                | None => None
+                end
+  | SMark k => Some (W (ws_log w) (ws_sorted w) (ws_ents w) (ws_next w) (ws_enabled w)
+                       (ws_queue w) (ws_listen w) (ws_called w) (ws_marks w ++ [(k, true)]))
+  end.
+
+(* WorldHandle.load: world = World(); world.dispatch_enabled = False; the
+   transform functions in order; dispatch on_world_load; return world *)
+Definition load (E : env) (k : load_kind) : option wstate :=
+  match foldM (run_step E) (w_start (init_enabled k)) (steps_of k) with
+  | Some w => Some (if via_handle k then dispatch_load w else w)
   | None => None
   end.
 
@@ -402,10 +496,10 @@ Definition release (w : wstate) : list cb :=
 Definition observe (w : wstate) : wobs :=
   WO (ws_log w) (map snd (ws_sorted w))
      (map (fun p => (fst p, map snd (snd p))) (ws_ents w))
-     (ws_enabled w) (release w).
+     (ws_enabled w) (ws_called w ++ release w) (ws_marks w).
 
-Definition model (E : env) (ds : desc) : outcome :=
-  match load E ds with Some w => OOk (observe w) | None => OErr end.
+Definition model (E : env) (k : load_kind) : outcome :=
+  match load E k with Some w => OOk (observe w) | None => OErr end.
 
 (* ---- comparison with the observation --------------------------------------- *)
 Definition kw_eqb (a b : list (Z * val)) : bool :=
@@ -421,7 +515,8 @@ Definition wobs_eqb (a b : wobs) : bool :=
   && zlist_eqb (o_procs a) (o_procs b)
   && forall2b (fun p q => val_eqb (fst p) (fst q) && zlist_eqb (snd p) (snd q)) (o_ents a) (o_ents b)
   && Bool.eqb (o_enabled a) (o_enabled b)
-  && forall2b cb_eqb (o_cbs a) (o_cbs b).
+  && forall2b cb_eqb (o_cbs a) (o_cbs b)
+  && forall2b (fun p q => (fst p =? fst q) && Bool.eqb (snd p) (snd q)) (o_marks a) (o_marks b).
 Definition outcome_eqb (a b : outcome) : bool :=
   match a, b with
   | OErr, OErr => true
@@ -429,7 +524,7 @@ Definition outcome_eqb (a b : outcome) : bool :=
   | _, _ => false
   end.
 
-Definition accepts (c : C15_case) : bool := outcome_eqb (model (c_env c) (c_desc c)) (c_obs c).
+Definition accepts (c : C15_case) : bool := outcome_eqb (model (c_env c) (c_load c)) (c_obs c).
 
 (* =========================== the property ===================================== *)
 (* forms of a string argument, read off the string alone *)
@@ -508,32 +603,97 @@ Definition subst_spec (E : env) (a : val) : expect :=
   | _ => Exactly a                                           (* arbitrary JSON passes through *)
   end.
 
-Definition arg_ok (E : env) (a o : val) : bool :=
-  match subst_spec E a with Exactly v => val_eqb v o | Anything => true end.
-
-Definition is_open (a : val) : bool :=
-  match a with
-  | JStr s => match classify s with FOpen => true | _ => false end
-  | _ => false
+(* ---- custom lists of dict transformers: "exactly these passes, in this
+   order", each pass read declaratively ------------------------------------------ *)
+Definition tree_expect (E : env) (p : str) (handle : bool) : expect :=
+  match slookup (dots_to_slashes p) (c_tree E) with
+  | Some (NHandle h r) => Exactly (if handle then JRef KHandle h else JRef KRes r)
+  | Some (NMap m) => Exactly (JRef KMap m)
+  | None => Anything
   end.
 
-Definition dict_open (d : ddict) : bool :=
-  existsb is_open (optl (d_args d)) || existsb (fun p => is_open (snd p)) (optl (d_kwargs d)).
+Definition spec_pass (E : env) (p : pass) (x : expect) : expect :=
+  match x with
+  | Anything => Anything
+  | Exactly (JStr s) =>
+      match p with
+      | PType => x
+      | PObj =>
+          match exact_body m_obj s with
+          | Some name => match slookup name (c_ns E) with
+                         | Some e => Exactly (n_val e)
+                         | None => Anything
+                         end
+          | None => if starts_with m_obj s then Anything else x
+          end
+      | PRes =>
+          match exact_body m_res s with
+          | Some q => tree_expect E q false
+          | None =>
+              match exact_body m_handle s with
+              | Some q => tree_expect E q true
+              | None => if starts_with m_res s || starts_with m_handle s then Anything else x
+              end
+          end
+      end
+  | Exactly _ => x
+  end.
+
+Fixpoint spec_fold (E : env) (ps : list pass) (x : expect) : expect :=
+  match ps with
+  | [] => x
+  | p :: r => spec_fold E r (spec_pass E p x)
+  end.
+
+(* where a dict comes from: handed to populate_world_from_dict as it is, or
+   read from a file by a WorldFromFileTransformer with these passes *)
+Inductive how := HDict | HFile (ps : list pass).
+
+Definition is_default (ps : list pass) : bool :=
+  match ps with [PType; PObj; PRes] => true | _ => false end.
+
+(* what the constructor must receive for the described argument a *)
+Definition expected (E : env) (h : how) (a : val) : expect :=
+  match h with
+  | HDict => Exactly a                              (* no transformer runs: nothing is substituted *)
+  | HFile ps => if is_default ps then subst_spec E a   (* the one-pass reading *)
+                else spec_fold E ps (Exactly a)
+  end.
+
+Definition arg_ok (E : env) (h : how) (a o : val) : bool :=
+  match expected E h a with Exactly v => val_eqb v o | Anything => true end.
+
+Definition open_arg (E : env) (h : how) (a : val) : bool :=
+  match expected E h a with Anything => true | Exactly _ => false end.
+
+Definition dict_open (E : env) (hd : how * ddict) : bool :=
+  existsb (open_arg E (fst hd)) (optl (d_args (snd hd)))
+  || existsb (fun p => open_arg E (fst hd) (snd p)) (optl (d_kwargs (snd hd))).
 
 Definition ent_dicts (e : edict) : list ddict := optl (e_comps e).
 Definition proc_dicts (ds : desc) : list ddict := optl (w_procs ds).
 Definition all_dicts (ds : desc) : list ddict :=
   proc_dicts ds ++ flat_map ent_dicts (optl (w_ents ds)).
 
-Definition has_open (ds : desc) : bool := existsb dict_open (all_dicts ds).
+(* the dicts of a load, in construction order *)
+Definition step_dicts (s : step) : list (how * ddict) :=
+  match s with
+  | SFile ps ds => map (pair (HFile ps)) (all_dicts ds)
+  | SDict ds => map (pair HDict) (all_dicts ds)
+  | _ => []
+  end.
+Definition all_hdicts (steps : list step) : list (how * ddict) := flat_map step_dicts steps.
+
+Definition has_open (E : env) (steps : list step) : bool := existsb (dict_open E) (all_hdicts steps).
 
 (* one constructor call is what its dict says *)
-Definition check_constr (E : env) (d : ddict) (k : constr) : bool :=
+Definition check_constr (E : env) (hd : how * ddict) (k : constr) : bool :=
+  let '(h, d) := hd in
   match slookup (d_type d) (c_ns E) with
   | Some e =>
       (k_type k =? tserial e)
-      && forall2b (arg_ok E) (optl (d_args d)) (k_args k)
-      && forall2b (fun p q => (fst p =? fst q) && arg_ok E (snd p) (snd q))
+      && forall2b (arg_ok E h) (optl (d_args d)) (k_args k)
+      && forall2b (fun p q => (fst p =? fst q) && arg_ok E h (snd p) (snd q))
                   (optl (d_kwargs d)) (k_kwargs k)
   | None => false
   end.
@@ -547,22 +707,50 @@ Definition id_given_ok (given : option val) (observed : val) : bool :=
   | Some v => val_eqb v observed
   end.
 
+(* processors: every step contributes, in order, the default pair or its
+   listed processors (instances are numbered in construction order) *)
+Definition step_size (s : step) : nat := length (step_dicts s).
+
+Definition step_procs (s : step) (start : Z) : list Z :=
+  match s with
+  | SDefault => [-1; -2]
+  | SFile _ ds | SDict ds => zseq start (length (proc_dicts ds))
+  | SMark _ => []
+  end.
+
+Fixpoint exp_procs (steps : list step) (start : Z) : list Z :=
+  match steps with
+  | [] => []
+  | s :: r => step_procs s start ++ exp_procs r (start + Z.of_nat (step_size s))
+  end.
+
+(* the listed entities of all steps, with the processor constructions that
+   lie between them *)
+Inductive item := IGap (n : nat) | IEnt (e : edict).
+
+Definition step_items (s : step) : list item :=
+  match s with
+  | SFile _ ds | SDict ds => IGap (length (proc_dicts ds)) :: map IEnt (optl (w_ents ds))
+  | _ => []
+  end.
+
 (* the listed entities against the observed ones.  Instances are numbered in
    construction order from [start]; an entity without components does not
    exist.  Returns, per component instance, its class kind and the id of the
    entity that owns it - or None when the shapes disagree. *)
-Fixpoint spec_ents (E : env) (es : list edict) (start : Z) (obs : list (val * list Z))
+Fixpoint spec_items (E : env) (its : list item) (start : Z) (obs : list (val * list Z))
   : option (list (Z * (ckind * val))) :=
-  match es with
+  match its with
   | [] => match obs with [] => Some [] | _ => None end
-  | e :: es' =>
+  | IGap n :: its' => spec_items E its' (start + Z.of_nat n) obs
+  | IEnt e :: its' =>
       let cs := ent_dicts e in
-      if null cs then spec_ents E es' start obs
+      if null cs then spec_items E its' start obs
       else match obs with
            | (id, insts) :: obs' =>
                let mine := zseq start (length cs) in
                if id_given_ok (e_id e) id && zlist_eqb insts mine
-               then match spec_ents E es' (start + Z.of_nat (length cs)) obs' with
+               then match spec_items E its' (start + Z.of_nat (length cs)) obs' with
                     | Some t => Some (combine mine (map (fun d => (kind_of E d, id)) cs) ++ t)
                     | None => None
                     end
@@ -571,39 +759,50 @@ Fixpoint spec_ents (E : env) (es : list edict) (start : Z) (obs : list (val * li
            end
   end.
 
-(* every handler component: on_add(entity, world) once, then
-   on_world_load(handle, world) once; nothing else *)
-Definition expected_cbs (x : Z * (ckind * val)) : list cb :=
+(* every handler component: on_add(entity, world) once, then - when the
+   world was loaded by a handle - on_world_load(handle, world) once;
+   nothing else *)
+Definition expected_cbs (vh : bool) (x : Z * (ckind * val)) : list cb :=
   let '(i, (k, eid)) := x in
   (if has_add k then [CB i 0 eid true] else [])
-  ++ (if has_load k then [CB i 1 JNull true] else []).
+  ++ (if vh && has_load k then [CB i 1 JNull true] else []).
 
 Definition cbs_of (i : Z) (l : list cb) : list cb := filter (fun c => cb_inst c =? i) l.
 
-Definition cbs_ok (table : list (Z * (ckind * val))) (l : list cb) : bool :=
-  forallb (fun x => forall2b cb_eqb (cbs_of (fst x) l) (expected_cbs x)) table
+Definition cbs_ok (vh : bool) (table : list (Z * (ckind * val))) (l : list cb) : bool :=
+  forallb (fun x => forall2b cb_eqb (cbs_of (fst x) l) (expected_cbs vh x)) table
   && forallb (fun c => existsb (fun x => fst x =? cb_inst c) table) l.
 
-Definition spec_ok (E : env) (ds : desc) (w : wobs) : bool :=
-  let np := length (proc_dicts ds) in
-  (* every constructor call, processors first, is what its dict says *)
-  forall2b (check_constr E) (all_dicts ds) (o_constr w)
-  (* exactly the listed processors after the two default ones *)
-  && zlist_eqb (o_procs w) ([-1; -2] ++ zseq 0 np)
-  (* dispatching disabled *)
-  && negb (o_enabled w)
+(* user transform functions: each called once, in order, with (handle, world) *)
+Definition exp_marks (steps : list step) : list (Z * bool) :=
+  flat_map (fun s => match s with SMark k => [(k, true)] | _ => [] end) steps.
+
+Definition marks_eqb (a b : list (Z * bool)) : bool :=
+  forall2b (fun p q => (fst p =? fst q) && Bool.eqb (snd p) (snd q)) a b.
+
+Definition spec_ok (E : env) (k : load_kind) (w : wobs) : bool :=
+  let steps := steps_of k in
+  (* every constructor call, in order, is what its dict says *)
+  forall2b (check_constr E) (all_hdicts steps) (o_constr w)
+  (* exactly the processors the steps add, in order (file handle: the two
+     default ones, then the listed ones) *)
+  && zlist_eqb (o_procs w) (exp_procs steps 0)
+  (* dispatching: disabled after a handle's load, untouched by a direct call *)
+  && Bool.eqb (o_enabled w) (init_enabled k)
+  (* the transform functions were called in order *)
+  && marks_eqb (o_marks w) (exp_marks steps)
   (* distinct entities, each with exactly its listed components, and the callbacks *)
   && vnodup (map fst (o_ents w))
-  && match spec_ents E (optl (w_ents ds)) (Z.of_nat np) (o_ents w) with
-     | Some table => cbs_ok table (o_cbs w)
+  && match spec_items E (flat_map step_items steps) 0 (o_ents w) with
+     | Some table => cbs_ok (via_handle k) table (o_cbs w)
      | None => false
      end.
 
 (* an aborted load is tolerated only when some argument is of an open form *)
 Definition holds_b (c : C15_case) : bool :=
   match c_obs c with
-  | OErr => has_open (c_desc c)
-  | OOk w => spec_ok (c_env c) (c_desc c) w
+  | OErr => has_open (c_env c) (steps_of (c_load c))
+  | OOk w => spec_ok (c_env c) (c_load c) w
   end.
 Definition holds (c : C15_case) : Prop := holds_b c = true.
 
@@ -621,9 +820,14 @@ Definition arg_wf (E : env) (a : val) : bool :=
   | _ => true
   end.
 
-Definition dict_wf (E : env) (d : ddict) : bool :=
-  forallb (arg_wf E) (optl (d_args d))
-  && forallb (fun p => arg_wf E (snd p)) (optl (d_kwargs d))
+(* a dict read from a file: JSON values, references resolve; a dict handed
+   over directly: any Python values *)
+Definition dict_wf (E : env) (h : how) (d : ddict) : bool :=
+  match h with
+  | HFile _ => forallb (arg_wf E) (optl (d_args d))
+               && forallb (fun p => arg_wf E (snd p)) (optl (d_kwargs d))
+  | HDict => true
+  end
   && znodup (map fst (optl (d_kwargs d))).
 
 (* 'type' names a class of the namespace *)
@@ -633,11 +837,11 @@ Definition class_of (E : env) (d : ddict) : option (Z * ckind) :=
   | _ => None
   end.
 
-Definition proc_wf (E : env) (d : ddict) : bool :=
-  dict_wf E d && match class_of E d with Some (t, CProc) => 0 <=? t | _ => false end.
+Definition proc_wf (E : env) (h : how) (d : ddict) : bool :=
+  dict_wf E h d && match class_of E d with Some (t, CProc) => 0 <=? t | _ => false end.
 
-Definition comp_wf (E : env) (d : ddict) : bool :=
-  dict_wf E d && match class_of E d with Some (_, CComp _ _) => true | _ => false end.
+Definition comp_wf (E : env) (h : how) (d : ddict) : bool :=
+  dict_wf E h d && match class_of E d with Some (_, CComp _ _) => true | _ => false end.
 
 Definition class_serial (E : env) (d : ddict) : Z :=
   match class_of E d with Some (t, _) => t | None => -3 end.
@@ -659,8 +863,8 @@ Fixpoint ids_wf (es : list edict) (used : list val) (next : Z) : bool :=
       end
   end.
 
-Definition ent_wf (E : env) (e : edict) : bool :=
-  forallb (comp_wf E) (ent_dicts e)
+Definition ent_wf (E : env) (h : how) (e : edict) : bool :=
+  forallb (comp_wf E h) (ent_dicts e)
   && znodup (map (class_serial E) (ent_dicts e)).     (* one component per exact class *)
 
 (* a namespace object that is a string does not itself look like a
@@ -671,36 +875,77 @@ Definition ns_wf (E : env) : bool :=
                     | _ => true
                     end) (c_ns E).
 
-Definition wf_b (c : C15_case) : bool :=
-  let E := c_env c in
-  let ds := c_desc c in
-  (0 <? c_depth E)                                      (* the file handle is inside a resource tree *)
-  && ns_wf E
-  && forallb (proc_wf E) (proc_dicts ds)
-  && znodup (map (class_serial E) (proc_dicts ds))      (* one processor per exact class *)
-  && forallb (ent_wf E) (optl (w_ents ds))
-  && ids_wf (optl (w_ents ds)) [] 1.
+Definition desc_wf (E : env) (h : how) (ds : desc) : bool :=
+  forallb (proc_wf E h) (proc_dicts ds) && forallb (ent_wf E h) (optl (w_ents ds)).
 
-(* K6: an argument on which OBJECT_STRING_REGEX.match succeeds and whose
-   group names an object that copy.deepcopy rejects: the deepcopy at the
-   start of the next transformer pass raises TypeError *)
-Definition arg_known (E : env) (a : val) : bool :=
-  match a with
-  | JStr s => match match_prefix m_obj s with
-              | Some g => match slookup g (c_ns E) with
-                          | Some e => has_nocopy (n_val e)
-                          | None => false
-                          end
-              | None => false
-              end
-  | _ => false
+Definition is_ptype (p : pass) : bool := match p with PType => true | _ => false end.
+
+Definition step_wf (E : env) (s : step) : bool :=
+  match s with
+  | SFile ps ds =>
+      (0 <? c_depth E)                                  (* the handle is inside a resource tree *)
+      && (length (filter is_ptype ps) =? 1)%nat         (* the type is resolved, once *)
+      && desc_wf E (HFile ps) ds
+  | SDict ds => desc_wf E HDict ds
+  | _ => true
   end.
 
-Definition dict_known (E : env) (d : ddict) : bool :=
-  existsb (arg_known E) (optl (d_args d))
-  || existsb (fun p => arg_known E (snd p)) (optl (d_kwargs d)).
+(* classes of the processors a step adds *)
+Definition step_ptypes (E : env) (s : step) : list Z :=
+  match s with
+  | SDefault => [-1; -2]
+  | SFile _ ds | SDict ds => map (class_serial E) (proc_dicts ds)
+  | SMark _ => []
+  end.
 
-Definition known_b (c : C15_case) : bool := existsb (dict_known (c_env c)) (all_dicts (c_desc c)).
+Definition step_ents (s : step) : list edict :=
+  match s with SFile _ ds | SDict ds => optl (w_ents ds) | _ => [] end.
+
+(* populate_world_from_dict called directly: only dictionaries *)
+Definition kind_wf (k : load_kind) : bool :=
+  match k with
+  | LDirect _ st => forallb (fun s => match s with SDict _ => true | _ => false end) st
+  | _ => true
+  end.
+
+Definition wf_b (c : C15_case) : bool :=
+  let E := c_env c in
+  let steps := steps_of (c_load c) in
+  ns_wf E
+  && kind_wf (c_load c)
+  && forallb (step_wf E) steps
+  && znodup (flat_map (step_ptypes E) steps)            (* one processor per exact class, over all steps *)
+  && ids_wf (flat_map step_ents steps) [] 1.            (* no id given twice, over all steps *)
+
+(* K6: an argument on which OBJECT_STRING_REGEX.match succeeds and whose
+   group names an object that copy.deepcopy rejects, while a further dict
+   transformer follows: the deepcopy at the start of that pass raises
+   TypeError.  Followed pass by pass on one argument: *)
+Definition vpass (E : env) (p : pass) (c : val) : option val :=
+  match p with
+  | PType => Some c
+  | PObj => obj_map E c
+  | PRes => res_map E c
+  end.
+
+Fixpoint vknown (E : env) (ps : list pass) (c : val) : bool :=
+  match ps with
+  | [] => false
+  | p :: r => match vpass E p c with
+              | Some c' => (has_nocopy c' && negb (null r)) || vknown E r c'
+              | None => false
+              end
+  end.
+
+Definition dict_known (E : env) (hd : how * ddict) : bool :=
+  match fst hd with
+  | HFile ps => existsb (vknown E ps) (optl (d_args (snd hd)))
+                || existsb (fun p => vknown E ps (snd p)) (optl (d_kwargs (snd hd)))
+  | HDict => false
+  end.
+
+Definition known_b (c : C15_case) : bool :=
+  existsb (dict_known (c_env c)) (all_hdicts (steps_of (c_load c))).
 
 Definition bit (b : bool) (n : nat) : nat := if b then n else 0%nat.
 Definition C15_verdict (c : C15_case) : nat :=
